@@ -227,6 +227,21 @@ Proof. vm_compute. auto. Qed.
 Example xml_backend_is_foreign : backends_is_thissystem [BK false 0] false None = false /\ backends_is_thissystem [BK false 0] true None = true.
 Proof. vm_compute. auto. Qed.
 
+(* ---- hwloc_get_last_cpu_location reads /proc/<tid>/stat: the task name (settable by the task itself with
+   prctl(PR_SET_NAME), may contain ')' ' ' '(' and digits) never shifts the field that is read ---- *)
+Theorem last_cpu_location_stat_ignores_task_name :
+  forall pre name rest,
+  ~ In 41%N rest -> ~ In 0%N (pre ++ 40 :: name ++ 41 :: rest) -> (List.length (pre ++ 40%N :: name ++ 41%N :: rest) <= 1023)%nat ->
+  parse_stat (pre ++ 40 :: name ++ 41 :: rest) = match skip_fields 36 (tl rest) with Some f => scan_int f | None => None end.
+Proof. exact parse_stat_ignores_name. Qed.
+Print Assumptions last_cpu_location_stat_ignores_task_name.
+Example stat_nonvacuous :
+  (* "7 (w) k) S 1 2 ... 36 fields ... 17 5 0": name "w) k", exit_signal 17, processor 5 *)
+  let fields := [83] ++ flat_map (fun _ => [32; 49]) (seq 0 34) ++ [32; 49; 55; 32; 53; 32; 48; 10] in
+  parse_stat ([55; 32] ++ 40 :: [119; 41; 32; 107] ++ 41 :: 32 :: fields) = Some 5%Z /\
+  parse_stat ([55; 32] ++ 40 :: [] ++ 41 :: 32 :: fields) = Some 5%Z.
+Proof. vm_compute. auto. Qed.
+
 (* ---- x86 discovery restores the binding (against an idealised affinity model; the real kernel is observed live) ----
    The binding that is queried, saved and restored is the calling THREAD's (x86_query_thisthread); restrict_set,
    present with RESTRICT_TO_CPUBINDING, is the PROCESS binding and only selects which PUs are visited.  For every
